@@ -120,8 +120,8 @@ EA, EB, EC = hx("a"), hx("b"), hx("c")
 
 
 class C01(FamilyCfg):
-    lean = []
-    audit = []
+    lean = ["Props.C01", "Audit.C01", "Props.C17", "Audit.C17"]
+    audit = ["C01", "C17"]
 
     def scripts(self, tier):
         # conditional-set matrix: every option combination x {missing, live string, live string with ttl, expired stored, other type}
@@ -393,6 +393,8 @@ class C11(CrossCfg):
 
 
 class C12(CrossCfg):
+    lean = ["Props.C12", "Audit.C12"]
+    audit = ["C12"]
     tie = ["SqlVerb", "Facts_rstring", "Facts_rkey", "Facts_rlist", "Facts_rset", "Facts_rhash", "Facts_rzset"]
     facts = [r"^sql\..*\.verb$", r"^facts\.", r"^wrappers\."]
     listed = set()
@@ -466,6 +468,63 @@ class C16(Cfg):
         return None
 
 
+GLOB_TOKENS = ["a", "b", "*", "?", "[ab]", "[a-c]", "[^a]", "[!a]", "[", "]", "\\", "-", "[]a]", "[a-]", "[^]]", "c"]
+GLOB_ALPHA = "abcd*?[]-^!\\"
+
+
+class C18(Cfg):
+    lean = ["Props.C18", "Audit.C18"]
+    audit = ["C18"]
+    tie = ["SqlFull_rkey", "SqlFull_rset", "SqlFull_rhash", "SqlFull_rzset"]
+    facts = [r"^sql\.rkey\.sql(Keys|Scan)\.", r"^sql\.(rset|rhash|rzset)\.sqlScan\."]
+    listed = {"D16"}
+    rule = ("every pattern of up to 3 tokens over {literals, *, ?, [ab], [a-c], [^a], [!a], unterminated [, ], backslash, -, []a], [a-], [^]]} against all "
+            "names of length 1..2 (and selected longer ones) over the alphabet abcd*?[]-^!\\, through Keys (judged against the Lean transcription of "
+            "SQLite GLOB and, inside the theorem's domain, against the independent reference matcher globSpec) and through SSCAN/HSCAN/ZSCAN/SCAN "
+            "(same matcher at all five sites); a case is (pattern, name set), non-trivial when the pattern selected something")
+
+    def streams(self, tier, seed, search):
+        import itertools
+        names = [c for c in GLOB_ALPHA] + [a + b for a in GLOB_ALPHA for b in GLOB_ALPHA] + ["key", "key1", "kdy", "kay", "a-c", "abc", "aXb"]
+        maxlen = 3
+        pats = []
+        for n in range(1, maxlen + 1):
+            for toks in itertools.product(GLOB_TOKENS, repeat=n):
+                pats.append("".join(toks))
+        pats = sorted(set(pats + ["key*", "k?y", "k[bce]y", "k[!a-c][y-z]", "k[^a-c][y-z]", "", "**", "*a*b*", "[z-a]", "a[b-]c"]))
+        nparts = 8
+        out = []
+        for part in range(nparts):
+            mine = names[part::nparts]
+            s = "--- db\n"
+            for nm in mine:
+                s += f"!str.Set {hx(nm)} {hx('v')}\n"
+            s += f"!set.Add {hx('S')} {len(mine)} " + " ".join(hx(nm) for nm in mine) + "\n"
+            for nm in mine[:12]:
+                s += f"!hash.Set {hx('H')} {hx(nm)} {hx('v')}\n!zset.Add {hx('Z')} {hx(nm)} 1p0\n"
+            step = 1 if tier == "thorough" or search else 2
+            for i, pt in enumerate(pats):
+                if (i + part) % step:
+                    continue
+                s += f"key.Keys {hx(pt)}\n"
+                if i % 7 == part % 7:
+                    s += f"set.Scan {hx('S')} 0 {hx(pt)} -1\nhash.Scan {hx('H')} 0 {hx(pt)} -1\nzset.Scan {hx('Z')} 0 {hx(pt)} -1\nkey.Scan 0 {hx(pt)} 0 -1\n"
+            out.append(dict(kind="script", script=s))
+        return out
+
+    def counts(self, op, v):
+        return op in ("key.Keys", "set.Scan", "hash.Scan", "zset.Scan", "key.Scan")
+
+    def judge(self, op, v, mode):
+        if not self.counts(op, v):
+            return None
+        if v.get("S") == "0" and not (set(v["K"]) & self.listed):
+            return ("violation", "the names selected differ from the reference glob matcher inside the domain where C18 fixes the meaning")
+        if v.get("M") == "0" and "out" in v["D"]:
+            return ("corr", "SQLite's GLOB and its Lean transcription select different names")
+        return None
+
+
 PROPS = {
     "C01": C01("C01", "str", "rstring", {"D05", "D17"}),
     "C02": C02("C02", "list", "rlist", {"D01", "D02", "D03", "D05"}),
@@ -478,5 +537,6 @@ PROPS = {
     "C12": C12(),
     "C16": C16(),
     "C17": C17(),
+    "C18": C18(),
     "C19": C19(),
 }
